@@ -609,7 +609,7 @@ func C05(tier string) int {
 	rep := report.New("C05", tier, "model_checking")
 	rep.Assume("bbolt transactions are atomic and isolated (trusted base)")
 	rep.Assume("universe: 2 entities per side (3 on one side in thorough), counts 0..2 (0..3 thorough); negative counts are outside the property's domain")
-	rep.Set("rule", "BFS to closure; oracle = complete image from reference model (both link directions, both counts), API reads from both sides, return values; SetLinks: all (current set, requested list) pairs")
+	rep.Set("rule", "BFS to closure with one operation per transaction and with two operations per transaction (quick: core pairs + pivots; thorough: all ordered pairs); oracle = complete image from reference model (both link directions, both counts), API reads from both sides, return values; SetLinks: all (current set, requested list) pairs")
 	a2, b2 := []string{"a1", "a1x"}, []string{"b1", "b1x"} // one id is a prefix of the other on purpose
 	run := func(sc *linkScenario, maxTrans int64) {
 		runE1(rep, sc, explore.Config{Programs: explore.SingleOps(len(sc.Ops())), MaxTrans: maxTrans})
@@ -617,12 +617,58 @@ func C05(tier string) int {
 	if tier == "quick" {
 		run(newLinkScenario("links 2x2", a2, b2, true, false, 0), 0)
 		run(newLinkScenario("ref-counted 2x2 counts<=2", a2, b2, false, true, 2), 0)
+		// two operations in ONE transaction (the second sees the first one's uncommitted writes)
+		for _, sc := range []*linkScenario{newLinkScenario("links 2x2, 2 ops per tx", a2, b2, true, false, 0), newLinkScenario("ref-counted 2x2 counts<=2, 2 ops per tx", a2, b2, false, true, 2)} {
+			runE1(rep, sc, explore.Config{Programs: c05PairPrograms(sc.Ops())})
+		}
 		setLinksExhaustive(rep, 3)
 	} else {
 		run(newLinkScenario("links 2x3", a2, []string{"b1", "b1x", "b2"}, true, false, 0), 0)
 		run(newLinkScenario("ref-counted 2x2 counts<=3", a2, b2, false, true, 3), 0)
 		run(newLinkScenario("links+ref-counted 2x2 counts<=2", a2, b2, true, true, 2), 12_000_000)
+		for _, sc := range []*linkScenario{newLinkScenario("links 2x2, 2 ops per tx (all pairs)", a2, b2, true, false, 0), newLinkScenario("ref-counted 2x2 counts<=2, 2 ops per tx (all pairs)", a2, b2, false, true, 2)} {
+			runE1(rep, sc, explore.Config{Programs: explore.Pairs(len(sc.Ops()))})
+		}
 		setLinksExhaustive(rep, 4)
 	}
 	return rep.Finish()
+}
+
+// c05PairPrograms: all ordered pairs over the single-link core (create/delete, AddLink/RemoveLink,
+// Increment/Decrement), plus every operation before and after each of seven pivot operations.
+func c05PairPrograms(ops []explore.Op) [][]int {
+	var core, pivots []int
+	for i, o := range ops {
+		n := o.Name
+		for _, p := range []string{"create", "delete", "A.AddLink(", "B.AddLink(", "A.RemoveLink(", "B.RemoveLink(", "A.Increment(", "B.Increment(", "A.Decrement(", "B.Decrement("} {
+			if strings.HasPrefix(n, p) {
+				core = append(core, i)
+				break
+			}
+		}
+		switch n {
+		case "createA(a1)", "createB(b1)", "deleteA(a1)", "deleteB(b1)", "A.AddLink(a1,b1)", "B.AddLink(b1,a1)", "A.RemoveLink(a1,b1)", "A.Increment(a1,b1)", "B.Increment(b1,a1)", "A.Decrement(a1,b1)":
+			pivots = append(pivots, i)
+		}
+	}
+	seen := map[[2]int]bool{}
+	var out [][]int
+	add := func(a, b int) {
+		if !seen[[2]int{a, b}] {
+			seen[[2]int{a, b}] = true
+			out = append(out, []int{a, b})
+		}
+	}
+	for _, a := range core {
+		for _, b := range core {
+			add(a, b)
+		}
+	}
+	for _, p := range pivots {
+		for x := range ops {
+			add(p, x)
+			add(x, p)
+		}
+	}
+	return out
 }
